@@ -17,7 +17,9 @@ render equal.
 The one known intentional change (DESIGN §7 #30): at level 0 the first read of a delayed-parsing field (B/J/H tag,
 alignment) switches its written spelling to the canonical one.  It is reported under the exact signature
 `lazy-spelling`, and only when the two texts are equal after canonicalising such fields; every other change has
-the signature `mutation[<catalogue entry>]`.
+the signature `mutation[<catalogue entry>]`.  A second open finding shows on the unchanged tree (KNOWN_FINDINGS
+`to_gfa2-assigns-id`): to_gfa2 / to_gfa2_s of a GFA1 link or containment without ID tag stores the generated ID in the
+source line, signatures `mutation|answer-changes[(Gfa|L|C|P).to_gfa2(_s)]`.
 
 NOT CHECKED
   * Gfa.unused_name (documented to hand out a fresh name every time), Link.canonicize / make_complement and the
